@@ -422,9 +422,10 @@ class C14(Prop):
     ]
     ASSUMPTIONS = [
         "taxon identity: a name that occurs under two different group labels while taxa_grp_col is set (8 % of the grouped "
-        "meanbv tables, all such tables of the exhaustive scope) is judged under EITHER reading - mean over all records of the "
-        "name, or over the records of the (name, group) pair of the genotype matrix entry; the unchanged code returns the mean "
-        "of the LAST group only (finding D61); without genotype matrix such tables are correspondence-only",
+        "meanbv tables, all such tables of the exhaustive scope) is judged by the Spec under EITHER reading of `each taxon's "
+        "mean over its records` - all records of the name, or the records of the (name, group) pair of the genotype matrix "
+        "entry; the repaired code (D61) pools the records of the name, which the correspondence pins exactly; without "
+        "genotype matrix such tables are correspondence-only (one row per (name, group) pair)",
         "configurations are built by the constructor and, in 22 % of the `real` pheno cases and in the histories, modified "
         "through the public setters afterwards (nenv lowered / raised, nrep and the variances re-assigned, 1-3 calls): a "
         "scalar (= constant) nrep means that many replicates in every environment, also in environments added later; fewer "
@@ -514,8 +515,8 @@ class C14(Prop):
             {"kind": "meanbv", "table": dict(table, env=[1, 1, 1, 1, 2, 2], rep=[1, 1, 2, 1, 1, 1]), "taxa_col": "taxa",
              "grp_col": "taxa_grp", "trait_cols": ["y1", "y2"], "gt": {"taxa": ["b", "a", "zz", "c"], "grp": None},
              "row_perm": [2, 0, 5, 4, 3, 1], "gt_perm": [3, 1, 0, 2]},
-            # D61: the name b is used under the group labels 1 and 5 while taxa_grp_col is set: the join keeps the LAST group
-            # (mean of record 6 alone = 7) instead of the mean over b's records (4) or over those of the genotype matrix' group
+            # D61 (repaired; regression case - must PASS now): the name b is used under the group labels 1 and 5 while
+            # taxa_grp_col is set: the old join kept the LAST group (mean of record 6 alone = 7); the records of b are pooled (4)
             {"kind": "meanbv", "table": dict(table, grp=[1, 2, 1, 3, 2, 5]), "taxa_col": "taxa", "grp_col": "taxa_grp",
              "trait_cols": ["y1", "y2"], "gt": {"taxa": ["c", "zz", "a", "b"], "grp": [3, 8, 2, 1]},
              "row_perm": [5, 3, 1, 0, 4, 2], "gt_perm": [2, 0, 3, 1]},
@@ -937,7 +938,7 @@ class C14(Prop):
             case["gt_perm"] = None
         if use_grp and case["gt"] is not None and not has_nan and table["grp"] is not None and None not in table["grp"] \
                 and rng.random() < 0.08:
-            # ONE NAME UNDER TWO GROUP LABELS (finding D61): some records of a taxon carry another group label
+            # ONE NAME UNDER TWO GROUP LABELS (D61, repaired): some records of a taxon carry another group label
             cnt = {}
             for nm in taxa:
                 cnt[nm] = cnt.get(nm, 0) + 1
@@ -1196,7 +1197,7 @@ class C14(Prop):
 
     def _gen_ehist(self, rng):
         def unfit(c):
-            # (histories keep one group label per name: tables with a name under two labels - finding D61 - are single-call cases)
+            # (histories keep one group label per name: tables with a name under two labels - D61 - are single-call cases)
             tb = c["table"]
             return any(v is None for row in tb["vals"] for v in row) or len(tb["taxa"]) > 40 \
                 or (tb["grp"] is not None and None in tb["grp"]) or bool(self._split_names(tb, "taxa_grp"))
@@ -1296,7 +1297,7 @@ class C14(Prop):
         mean identifies the set of records it was taken over), estimated without and with the group column, against EVERY
         genotype list of 1-2 entries over {a, b, c} (c never phenotyped), three lists of 3 entries and no genotype matrix: 10 880 cases.
         With the group column, tables in which one name occurs under both groups are judged by `_spec_two_groups` when a
-        genotype matrix is supplied (finding D61: the join keeps the last group only) and kept as correspondence-only cases
+        genotype matrix is supplied (D61, repaired: the records of the name are pooled) and kept as correspondence-only cases
         without one (the aggregated frame then has one row per (name, group) pair)."""
         if tier != "thorough":
             return None
@@ -2292,8 +2293,9 @@ class C14(Prop):
         split = self._split_names(case["table"], case["grp_col"])
         extra = ""
         if split and gt is not None and not case.get("corr_only"):
-            # one name under two group labels with the group column in use (finding D61): the Lean oracle reads "taxon" as
-            # "name"; here either notion of taxon identity is accepted
+            # one name under two group labels with the group column in use (D61, repaired): the Lean oracle reads "taxon" as
+            # "name"; the statement is met under either notion of taxon identity, so both are accepted here (the
+            # correspondence above pins the repaired code's reading: the records of the name are pooled)
             ok2, extra = self._spec_two_groups(case, obs)
             spec = ok2 and inv and gtinv
         elif split or case.get("corr_only"):
@@ -2450,8 +2452,6 @@ class C14(Prop):
             sig["site"] = SITE_EST
             if case.get("grp_col") is not None and case["table"].get("grp") is None:
                 sig["cond"] = "taxa_grp_col_all_missing"
-            elif case.get("gt") is not None and self._split_names(case["table"], case.get("grp_col")):
-                sig["cond"] = "name_under_two_groups"
         if case["kind"] == "pipeline":
             sig["site"] = SITE_EST
             if case.get("use_grp") and case["pop"].get("grp") is None:
@@ -3059,7 +3059,35 @@ class C14(Prop):
             out._var_rep, out._var_err = out._var_err, out._var_rep
             return out
 
+        def est_last_group_only(self, ptobj, gtobj=None, miscout=None, **kw):   # D61 as it was: of a name used under several
+            gc = self.taxa_grp_col                                                # group labels only the LAST group is averaged
+            if gtobj is None or gc is None or gc not in ptobj.columns:
+                return est0(self, ptobj, gtobj, miscout, **kw)
+            names = ptobj[self.taxa_col].astype(object)
+            grp = pandas.to_numeric(ptobj[gc], errors="coerce").to_numpy(dtype=float)
+            keep = numpy.zeros(len(ptobj), dtype=bool)
+            for nm in pandas.unique(names):
+                sel = (names == nm).to_numpy()
+                g = grp[sel]
+                if numpy.isnan(g).any():                    # a missing label sorts last in the group-by
+                    keep |= sel & numpy.isnan(grp)
+                else:
+                    keep |= sel & (grp == g.max())
+            return est0(self, ptobj[keep], gtobj, miscout, **kw)
+
+        def est_never_groups_by_group(self, ptobj, gtobj=None, miscout=None, **kw):   # the repair over-generalised: the group
+            if gtobj is not None or self.taxa_grp_col is None:                          # column is dropped without genotype matrix too
+                return est0(self, ptobj, gtobj, miscout, **kw)
+            real = self._taxa_grp_col
+            self._taxa_grp_col = None
+            try:
+                return est0(self, ptobj, gtobj, miscout, **kw)
+            finally:
+                self._taxa_grp_col = real
+
         round4 = [
+            ("r4_estimate_last_group_only_as_before_the_repair_of_D61", lambda: patch(MBV, "estimate", est_last_group_only)),
+            ("r4_estimate_drops_group_column_without_genotype_matrix", lambda: patch(MBV, "estimate", est_never_groups_by_group)),
             ("r4_nenv_setter_as_before_the_repair_of_D60", lambda: patch(GEP, "nenv", property(nenv_prop.fget, nenv_prerepair))),
             ("r4_nenv_setter_invents_replicate_counts", lambda: patch(GEP, "nenv", property(nenv_prop.fget, nenv_pads_with_ones))),
             ("r4_set_h2_subtracts_env_and_rep_variance", lambda: patch(GEP, "set_h2", h2_minus_env_rep)),
